@@ -199,8 +199,14 @@ func formatValue(value interface{}, module *parser.Frugal) template.HTML {
 		display := "{ "
 		prefix := ""
 		for _, keyValue := range v {
+			// Names (field names of struct constants) are shown like strings,
+			// keys of any other kind (numbers, booleans, ...) as values.
+			key := keyValue.Key
+			if identifier, ok := key.(parser.Identifier); ok {
+				key = string(identifier)
+			}
 			display += fmt.Sprintf("%s%s = %s", prefix,
-				formatValue(keyValue.KeyToString(), module), formatValue(keyValue.Value, module))
+				formatValue(key, module), formatValue(keyValue.Value, module))
 			prefix = ", "
 		}
 		display += " }"
